@@ -32,7 +32,7 @@ def norm(file, kind, name, *opts):
 
 NOT_APPLICABLE = {
     'C02': 'postcondition of BPETokenizer::merge_bytes: regex match iterator + BinaryHeap of 6-tuples + filter_map/find closures over enumerate().zip(); Verus rejects the text and Kani cannot construct a Regex receiver; no contract within reach decides it (DESIGN 7)',
-    'C03': 'same function as C02 (canonical merge order is an invariant of the heap loop in merge_bytes); not expressible without rewriting the loop, which would be a model (DESIGN 7)',
+    'C03': 'canonical merge order is the loop invariant of BPETokenizer::merge_bytes (BinaryHeap of 6-tuples, regex match iterator, nested find/map closures): Verus rejects the text, Kani cannot construct a Regex receiver, and unlike C02 there is no composition around the function to put under contract (DESIGN 7)',
     'C05': 'all-schedules property of threaded code (Mutex, AtomicUsize spin, sync_channel); Kani has no threads, Verus only verifies concurrency written with its own permission types (DESIGN 7)',
     'C08': 'whole-pipeline / history / schedule property through pyo3 classes, threads and files; no per-call contract expresses it (DESIGN 7)',
     'C09': 'drop / panic / bounded-lookahead property of background threads; history property with no per-call contract (DESIGN 7)',
